@@ -98,6 +98,10 @@ package protocol
 //@   requires h != nil && excl(h.mtx) && hshape(h)
 //@   modifies nothing
 
+//@ func unmarshalContent
+//@   nopanic[C05]
+//@   modifies shared
+
 //@ func getRoundMessage
 //@   chansafe[C17]
 //@   requires msg != nil && r != nil
